@@ -703,4 +703,185 @@ Section MovingLib.
       + left. apply (in_map key). apply filter_In. split; [exact He | exact Fe].
       + right. apply N.leb_gt in Fe. lia.
   Qed.
+
+  (* ---------------------------------------------------------------- one ProcessBlock call *)
+
+  (* the block was received before and is still stored, or lies under the LIB of a started stream *)
+  Definition known (s : fstate) (x : block) : Prop :=
+    In (bid x) (keys (store (db s))) \/ dropped s x = true.
+
+  Definition StepOut (s : fstate) (Fin : list block) (S : cstack) (b : block)
+             (res : fstate * list event * result) : Prop :=
+    exists s' evA evI evS Fnew S',
+      res = (s', evA ++ evI ++ evS, ROk) /\
+      apply_all (ri r0) S evA = Some S' /\
+      Inv s' (Fin ++ Fnew) S' /\
+      Forall (fun e => estep e = SUndo \/ estep e = SNew) evA /\
+      (forall e, In e evA -> estep e = SUndo -> In (eblk e) U /\ rn (libref (db s)) < bnum (eblk e)) /\
+      Forall (fun e => estep e = SIrr) evI /\ Forall (fun e => estep e = SStalled) evS /\
+      (if f_irr (c_filter cfg) then map eblk evI = Fnew else evI = []) /\
+      rn (libref (db s)) <= rn (libref (db s')) /\
+      Forall (fun x => rn (libref (db s)) < bnum x /\ bnum x <= blib b) Fnew /\
+      (Fnew = [] -> evS = [] /\ libref (db s') = libref (db s)) /\
+      (forall e, In e evS -> In (eblk e) U /\ rn (libref (db s)) < bnum (eblk e) <= rn (libref (db s')) /\
+                            ~ In (bid (eblk e)) (map bid S')) /\
+      NoDup (map (fun e => bid (eblk e)) evS) /\
+      (known s b -> s' = s /\ evA = [] /\ evI = [] /\ evS = []) /\
+      (forall x, In x U -> known s x -> known s' x) /\
+      known s' b.
+
+  Lemma stepout_quiet s Fin S b s' : Inv s' Fin S -> libref (db s') = libref (db s) ->
+    (known s b -> s' = s) -> (forall x, In x U -> known s x -> known s' x) -> known s' b ->
+    StepOut s Fin S b (s', [], ROk).
+  Proof.
+    intros HI Hl Hk1 Hk2 Hk3. exists s', [], [], [], [], S. rewrite app_nil_r.
+    split; [reflexivity|]. split; [reflexivity|]. split; [rewrite app_nil_r; exact HI|].
+    split; [constructor|]. split; [intros e []|]. split; [constructor|]. split; [constructor|].
+    split; [destruct (f_irr (c_filter cfg)); reflexivity|]. split; [rewrite Hl; lia|].
+    split; [constructor|]. split; [auto|]. split; [intros e []|]. split; [constructor|].
+    split; [intros H; auto|]. split; [exact Hk2 | exact Hk3].
+  Qed.
+
+  Lemma in_keys_dec x l : In x (keys l) \/ ~ In x (keys l).
+  Proof. destruct (in_dec N.eq_dec x (keys l)); auto. Qed.
+
+  Lemma evs_blocks (P : block -> Prop) evs l : map eblk evs = map eb l -> (forall a, In a l -> P (eb a)) ->
+    forall e, In e evs -> P (eblk e).
+  Proof.
+    intros Hm Hl e He. assert (Hin : In (eblk e) (map eblk evs)) by (apply in_map; exact He).
+    rewrite Hm in Hin. apply in_map_iff in Hin as (a & <- & Ha). apply Hl. exact Ha.
+  Qed.
+
+  (* assembling a triggering step from its two halves *)
+  Lemma step_finish s Fin S b s3 evU evRN S3 :
+    Inv s Fin S -> In b U -> ~ In (bid b) (keys (store (db s))) -> dropped s b = false ->
+    apply_all (ri r0) S (evU ++ evRN) = Some S3 -> Inv s3 Fin S3 ->
+    keys (store (db s3)) = keys (store (db s)) ++ [bid b] -> last_sent s3 = Some b ->
+    libref (db s3) = libref (db s) -> bid b <> ri (libref (db s3)) ->
+    Forall (fun e => estep e = SUndo) evU -> Forall (fun e => estep e = SNew) evRN ->
+    (forall e, In e evU -> In (eblk e) U /\ rn (libref (db s)) < bnum (eblk e)) ->
+    StepOut s Fin S b (lib_tail s3 b (evU ++ evRN)).
+  Proof.
+    intros HI Hb Hk Hdr Happ HI3 Hk3 Hls3 Hl3 Hne HsU HsRN HuU.
+    destruct (lib_half s3 Fin S3 b (evU ++ evRN) HI3 Hls3 Hb Hne)
+      as (s' & evI & evS & Fnew & -> & HI' & Hls' & HsI & HsS & HmI & Hmono & HFnew & Hnil & Hst & Hnd & Hkeys).
+    rewrite Hl3 in *.
+    exists s', (evU ++ evRN), evI, evS, Fnew, S3.
+    split; [reflexivity|]. split; [exact Happ|]. split; [exact HI'|].
+    split.
+    { apply Forall_app. split; (eapply Forall_impl; [|eassumption]); cbn beta; auto. }
+    split.
+    { intros e He Hs. apply in_app_or in He as [He|He]; [apply HuU; exact He|].
+      rewrite Forall_forall in HsRN. rewrite (HsRN e He) in Hs. discriminate. }
+    split; [exact HsI|]. split; [exact HsS|]. split; [exact HmI|]. split; [exact Hmono|].
+    split; [exact HFnew|].
+    split.
+    { intros Hn. destruct (Hnil Hn) as [-> ->]. auto. }
+    split; [exact Hst|]. split; [exact Hnd|].
+    assert (Hdrop : forall x, bnum x < rn (libref (db s')) -> dropped s' x = true).
+    { intros x Hx. unfold dropped. rewrite Hls'. apply andb_true_iff. split; [apply N.ltb_lt; exact Hx | reflexivity]. }
+    assert (Hkn : forall x, In x U -> In (bid x) (keys (store (db s3))) -> known s' x).
+    { intros x Hx Hin. destruct (Hkeys x Hx Hin) as [H|H]; [left; exact H | right; apply Hdrop; exact H]. }
+    split.
+    { intros [H|H]; [contradiction | congruence]. }
+    split.
+    - intros x Hx [H|H].
+      + apply Hkn; [exact Hx|]. rewrite Hk3. apply in_or_app. left. exact H.
+      + right. apply Hdrop. unfold dropped in H. apply andb_true_iff in H as [H _]. apply N.ltb_lt in H. lia.
+    - apply Hkn; [exact Hb|]. rewrite Hk3. apply in_or_app. right. left. reflexivity.
+  Qed.
+
+  Lemma step_inv s Fin S b : Inv s Fin S -> In b U -> StepOut s Fin S b (fk_step cfg s b).
+  Proof.
+    intros HI Hb.
+    destruct (dropped s b) eqn:Hd.
+    { rewrite (fk_step_dropped U cfg U_id s b Hb Hd). apply stepout_quiet; auto. right. exact Hd. }
+    pose proof HI as [Hdb Hfin Hfl Hflast Hh]. pose proof Hdb as [Hnd HU Hcoh Hnum Hextra Hlc].
+    pose proof (di_wf _ Hdb) as Hwf.
+    destruct (find (bid b) (store (db s))) as [e|] eqn:Hf.
+    { rewrite (fk_step_old U cfg Hincl U_id U_uniq s b e HU Hb Hf Hwf). apply stepout_quiet; auto.
+      left. apply find_is_some_in. eauto. }
+    (* a new block *)
+    pose proof (inv_add s Fin S b HI Hb Hf) as HI1.
+    set (s1 := with_db s (new_db (db s) b)) in *.
+    set (en := mkEntry b false).
+    assert (Hk : ~ In (bid b) (keys (store (db s)))) by (apply find_none; exact Hf).
+    assert (Hnk : ~ known s b) by (intros [H|H]; [contradiction | congruence]).
+    assert (Hl1 : libref (db s1) = libref (db s)) by reflexivity.
+    assert (Hk1 : keys (store (db s1)) = keys (store (db s)) ++ [bid b]).
+    { unfold s1. cbn [with_db db new_db store]. apply keys_snoc. }
+    assert (Hsw : exists u r j, sw_of cfg s b = ScssOk u r j).
+    { unfold sw_of. destruct (f_undo (c_filter cfg) && triggers cfg s b); [|eauto].
+      destruct (last_sent s) as [ls|]; [apply scss_total; exact Hwf | eauto]. }
+    destruct Hsw as (undos & redos & junc & Hsw).
+    rewrite (fk_step_new' s b undos redos junc Hdb Hb Hf Hd Hsw). cbv zeta. fold s1.
+    pose proof HI1 as [Hdb1 _ _ _ _]. pose proof Hdb1 as [Hnd1 HU1 _ _ _ _].
+    pose proof (di_wf _ Hdb1) as Hwf1.
+    change (new_db (db s) b) with (db s1).
+    destruct (rs_total (db s1) first Hwf1 (fuel_of (db s1)) (bid b) (bnum b) [] (enough_fuel_of _ _)) as [[longest reach] Hrs].
+    unfold reversible_segment. cbn [bref ri rn]. rewrite Hrs.
+    destruct (negb (triggers cfg s b) || match longest with [] => true | _ => false end) eqn:Hgo.
+    { apply stepout_quiet; auto.
+      - intros H. contradiction.
+      - intros x Hx [H|H]; [left; rewrite Hk1; apply in_or_app; left; exact H | right; exact H].
+      - left. rewrite Hk1. apply in_or_app. right. left. reflexivity. }
+    apply orb_false_iff in Hgo as [Htr Hlong]. apply negb_false_iff in Htr.
+    (* the chain of the new block *)
+    assert (Hfb : find (bid b) (store (db s1)) = Some en).
+    { unfold s1. cbn [with_db db new_db store]. apply (find_snoc_new (store (db s)) en). exact Hk. }
+    assert (Hshape : exists pP, chain (store (db s1)) (bid b) (ri (libref (db s1))) (pP ++ [en]) /\ longest = map seg_of (pP ++ [en])).
+    { destruct reach.
+      - apply rs_sound in Hrs.
+        2:{ intros e' He'. rewrite Hfb in He'. injection He' as <-. reflexivity. }
+        destruct Hrs as (p & Hc & Hp & _). rewrite app_nil_r in Hp.
+        destruct p as [|e' p' _] using rev_ind.
+        + subst longest. discriminate.
+        + destruct (chain_top _ _ _ _ _ Hc) as [Hf' _]. rewrite Hfb in Hf'. injection Hf' as <-.
+          exists p'. auto.
+      - apply (rs_false_nil cfg (db s1) (di_has_lib _ Hdb1)) in Hrs. subst longest. discriminate. }
+    destruct Hshape as (pP & Hc & ->).
+    destruct (chain_snoc_inv _ _ _ _ _ Hc) as (Hne1 & _ & HcP). cbn [eb en] in HcP.
+    assert (Hnin : ~ In en pP).
+    { pose proof (chain_nodup _ _ _ _ Hwf1 Hc) as Hn. unfold keys in Hn. rewrite map_app in Hn.
+      intros Hin. refine (nodup_app_disj _ _ (key en) Hn _ _); [apply in_map; exact Hin | left; reflexivity]. }
+    assert (HcP0 : chain (store (db s)) (bparent b) (ri (libref (db s))) pP).
+    { apply (chain_restrict (store (db s)) en); assumption. }
+    unfold sw_of in Hsw. rewrite Hundo, Htr in Hsw. cbn [andb] in Hsw.
+    destruct (last_sent s) as [hd|] eqn:Hls.
+    - destruct Hh as (HhU & pH & HcH & HS & HsH).
+      assert (HpH : forall a, In a pH -> In (eb a) U /\ rn (libref (db s)) < bnum (eb a)).
+      { intros a Ha. split; [apply HU; apply (chain_in _ _ _ _ _ HcH Ha) | apply (di_above _ Hdb _ _ HcH a Ha)]. }
+      destruct (N.eq_dec (bid hd) (bparent b)) as [Heq|Hneq].
+      + unfold sent_chain_switch_segments in Hsw. rewrite Heq, N.eqb_refl in Hsw. injection Hsw as <- <- <-.
+        rewrite Heq in HcH. pose proof (chain_det _ _ _ _ _ HcH HcP0) as ->.
+        destruct (trigger_first s1 Fin S b pP pP [] [] None HI1 Hb Hc) as
+          (s3 & evU & evRN & Hrun & Happ & HI3 & Hk3 & Hls3 & Hlr3 & HmU & HsU & HsRN).
+        * rewrite app_nil_r. reflexivity.
+        * exact HsH.
+        * rewrite app_nil_r. exact HS.
+        * cbn [rev filter] in Hrun. fold en in Hrun. rewrite Hrun.
+          eapply step_finish; eauto; try congruence.
+          apply map_eq_nil in HmU. subst evU. intros e0 [].
+      + destruct (scss_link (db s) _ (bid hd) (bparent b) pH pP Hwf Hneq HcH HcP0) as (C & R & Uh & j & HP & HH & Hsc).
+        { intros f t e0 Hu He0. exact (tail_disjoint' (db s) pP (bparent b) Hdb HcP0 f t e0 Hu He0). }
+        rewrite Hsc in Hsw. injection Hsw as <- <- <-.
+        destruct (trigger_first s1 Fin S b pP C R Uh j HI1 Hb Hc HP) as
+          (s3 & evU & evRN & Hrun & Happ & HI3 & Hk3 & Hls3 & Hlr3 & HmU & HsU & HsRN).
+        * rewrite HH in HsH. apply Forall_app in HsH. tauto.
+        * rewrite HS, HH. reflexivity.
+        * fold en in Hrun. rewrite Hrun. eapply step_finish; eauto; try congruence.
+          apply (evs_blocks (fun x => In x U /\ rn (libref (db s)) < bnum x) evU (rev Uh) HmU).
+          intros a Ha. apply HpH. rewrite HH. apply in_or_app. right. apply in_rev. exact Ha.
+    - injection Hsw as <- <- <-. destruct Hh as (-> & -> & Hall).
+      assert (Hfil : filter esent pP = []).
+      { assert (G : forall x, In x pP -> esent x = false).
+        { intros x Hx. apply Hall. eapply chain_in; [exact HcP0 | exact Hx]. }
+        clear -G. induction pP as [|h t IHt]; cbn [filter]; [reflexivity|].
+        rewrite (G h (or_introl eq_refl)). apply IHt. intros x Hx. apply G. right. exact Hx. }
+      destruct (trigger_first s1 [] [] b pP [] pP [] None HI1 Hb Hc eq_refl (Forall_nil _) eq_refl) as
+        (s3 & evU & evRN & Hrun & Happ & HI3 & Hk3 & Hls3 & Hlr3 & HmU & HsU & HsRN).
+      cbn [rev] in Hrun. rewrite Hfil in Hrun. fold en in Hrun. rewrite Hrun.
+      eapply step_finish; eauto; try congruence.
+      apply map_eq_nil in HmU. subst evU. intros e0 [].
+  Qed.
 End MovingLib.
